@@ -18,7 +18,8 @@ BACKENDS = ["default", "torch", "jax", "fortran"]
 SOLVERS = ["euler", "heun", "scipy", "diffrax", "other"]
 DELAYS = ["none", "discrete", "spread", "past"]
 ENTRIES = ["run", "func", "jac"]
-GUARDS = ["guard_path_not_attr", "guard_outputs_all_or_none", "guard_node_value_node_exists"]
+GUARDS = ["guard_path_not_attr"]
+MIXED = ["mix_ds", "mix_sd"]
 
 # ---------------------------------------------------------------------------------------------- pool of valid models
 def pool():
@@ -38,18 +39,23 @@ def pool():
     return [A, B]
 
 def matrix_model(dl):
-    """the probe model of the configuration matrix, one per delay kind"""
+    """the probe model of the configuration matrix, one per delay kind.  mix_ds / mix_sd: one plain `delay` edge and one
+    `delay`+`spread` edge from two different source variables; the node declaration order decides which of the two is
+    processed first by NetworkGraph._preprocess_edge_operations (ds: the plain-delay edge first)."""
     if dl == "past":
         op = dict(equations=["v' = -v + k*past(v, tau) + s_in"], variables={"v": "output(0.5)", "s_in": "input(0.0)", "k": 0.5, "tau": 0.25})
     else:
         op = dict(equations=["v' = -v + s_in"], variables={"v": "output(0.5)", "s_in": "input(0.0)"})
-    ed = {"weight": 0.5}
-    if dl in ("discrete", "spread"):
-        ed["delay"] = 0.25
+    ed_ab, ed_ba = {"weight": 0.5}, {"weight": 0.5}
+    if dl in ("discrete", "spread", "mix_ds", "mix_sd"):
+        ed_ab["delay"] = 0.25; ed_ba["delay"] = 0.25
     if dl == "spread":
-        ed["spread"] = 0.125
-    return dict(name="M" + dl, ops={"o1": op}, nodes={"a": dict(ops=["o1"], values={}), "b": dict(ops=["o1"], values={})},
-                edges=[["a/o1/v", "b/o1/s_in", dict(ed)], ["b/o1/v", "a/o1/s_in", dict(ed)]],
+        ed_ab["spread"] = 0.125
+    if dl in ("spread", "mix_ds", "mix_sd"):
+        ed_ba["spread"] = 0.125
+    order = ["b", "a"] if dl == "mix_sd" else ["a", "b"]
+    return dict(name="M" + dl, ops={"o1": op}, nodes={n: dict(ops=["o1"], values={}) for n in order},
+                edges=[["a/o1/v", "b/o1/s_in", ed_ab], ["b/o1/v", "a/o1/s_in", ed_ba]],
                 outputs={"v": "a/o1/v"}, inputs=[], update={}, node_values={})
 
 def net_of(m):
@@ -233,6 +239,9 @@ def config_cases(rng, tier):
     for be, so, vec, dl, ip, en in itertools.product(BACKENDS, SOLVERS, [False, True], DELAYS, [True, False], ENTRIES):
         for sp in ([False, True] if en == "jac" else [False]):      # `sparse` is a parameter of get_jacobian_func only
             cases.append(dict(t="config", be=be, so=so, vec=vec, dl=dl, sparse=sp, inplace=ip, en=en))
+    # mixed delay kinds in one model (plain-delay edge and delay+spread edge), both processing orders
+    for be, so, vec, dl, en in itertools.product(BACKENDS, SOLVERS, [False, True], MIXED, ENTRIES):
+        cases.append(dict(t="config", be=be, so=so, vec=vec, dl=dl, sparse=False, inplace=True, en=en))
     inproc = [c for c in cases if c["be"] != "fortran"]
     f_early = [c for c in cases if c["be"] == "fortran" and c["vec"]]          # refused before compilation
     f_late = [c for c in cases if c["be"] == "fortran" and not c["vec"]]       # reach f2py (about 6 s each)
@@ -275,6 +284,11 @@ def mutants(m, rng, tier):
         for i in range(3):
             mm = copy.deepcopy(m); mm["node_values"] = {misspell(p, i): val}
             mk("node_value", f"{p}:{i}", mm, use=("node_values",), path=misspell(p, i))
+    for p, val in m["node_values"].items():                         # `all` broadcast: valid, operator misspelt, variable misspelt
+        bp = "all/" + p.split("/", 1)[1]
+        for q in (bp, misspell(bp, 1), misspell(bp, 2)):
+            mm = copy.deepcopy(m); mm["node_values"] = {q: val}
+            mk("node_value", f"{q}", mm, use=("node_values",), path=q)
     reserved = ["y", "dy", "source_idx", "target_idx", "pi", "I", "E", "S", "Q", "O", "N", "oo", "zoo", "nan", "beta", "gamma",
                 "Beta", "Gamma", "exp", "log", "sin", "cos", "tan", "cot", "sec", "csc", "sinh", "cosh", "tanh", "sqrt", "abs",
                 "q_buffer", "a_delays_0", "w_maxdelay", "a_idx_b", "x_hist"]
@@ -404,8 +418,10 @@ def probe_term(case, res):
     if t == "config":
         be = {"default": "BDefault", "torch": "BTorch", "jax": "BJax", "fortran": "BFortran"}[case["be"]]
         so = {"euler": "SEuler", "heun": "SHeun", "scipy": "SScipy", "diffrax": "SDiffrax", "other": "SOther"}[case["so"]]
-        dl = {"none": "DNone", "discrete": "DDiscrete", "spread": "DSpread", "past": "DPast"}[case["dl"]]
+        dl = {"none": "DNone", "discrete": "DDiscrete", "spread": "DSpread", "past": "DPast"}.get(case["dl"])
         en = {"run": "ERun", "func": "EFunc", "jac": "EJac"}[case["en"]]
+        if case["dl"] in MIXED:
+            return f"PMixed {be} {so} {cbool(case['vec'])} {cbool(case['dl'] == 'mix_ds')} {en}"
         return f"PConfig (mkc {be} {so} {cbool(case['vec'])} {dl} {cbool(case['sparse'])} {cbool(case['inplace'])} {en})"
     if t == "vname":
         return f"PVname {cstr(case['v'])}"
@@ -607,6 +623,7 @@ def check(ctx):
                                           fortran_reaching_f2py=sum(1 for c in cases if c["t"] == "config" and c["be"] == "fortran" and not c["vec"]),
                                           note="`sparse` is a parameter of get_jacobian_func only: rows with sparse=true are run for that entry point"),
                               impl_vs_model_mismatches=len(badI), impl_vs_spec_mismatches=len(badS),
+                              mixed_delay_rows=sum(1 for c in cases if c["t"] == "config" and c["dl"] in MIXED),
                               outside_guards={g: len(cmp_[g]) for g in GUARDS}),
                    trusted_base=["exception classes are compared through a three-valued enum (PyRatesException / NotImplementedError / any other)",
                                  "the abstract network / operator-graph description of a probe is produced by the harness from the same JSON "
@@ -614,4 +631,5 @@ def check(ctx):
                    assumptions=["matrix rows are exercised on one probe model per delay kind (two nodes, one operator, mutual edges)",
                                 "Guards.crash_gen / crash_call list the loud downstream failures of those probe models on the current tree "
                                 "(class 'other'); they are part of Impl, not of the guards",
-                                "outside the three guards of the known findings the full statement is refuted (C20_refuted_*)"])
+                                "mixed delay kinds (plain-delay edge + delay+spread edge, both orders) are run on the slice inplace=true, sparse=false",
+                                "outside guard_path_not_attr (known finding C20-F3) the full statement is refuted (C20_refuted_verify_path)"])
